@@ -79,6 +79,9 @@ def gen_c16(rng: random.Random, sid: str, thorough: bool) -> dict:
     return sc
 
 
+RAND_SITES = ('tc',)          # (the copy of a query with a QU question is answered again -- finding D9 -- and draws at 'resp' for it)
+
+
 def obs(tr: dict, sigs: Dict[str, int]) -> List[dict]:
     out = []
     for e in tr['events']:
@@ -96,6 +99,9 @@ def obs(tr: dict, sigs: Dict[str, int]) -> List[dict]:
             out.append({'k': 'lc', 't': e['t'], 'mc': False, 'sig': e['n'], 'sig2': 0})
         elif e['ev'] == 'exc':
             out.append({'k': 'exc', 't': e['t'], 'mc': False, 'sig': 0, 'sig2': 0})
+        elif e['ev'] == 'rand' and e.get('site') in RAND_SITES:
+            # a draw from the process-wide random generator: it decides every later delay, so consuming one is an effect
+            out.append({'k': 'rand', 't': e['t'], 'mc': False, 'sig': 1 if e['site'] == 'tc' else 2, 'sig2': 0})
     return out
 
 
@@ -115,6 +121,7 @@ def record_pair(job: Tuple[dict, Any]) -> dict:
     echo = [e['t'] for e in dup['events'] if e['ev'] == 'recv' and e.get('resp') and not e.get('bad') and any(q[2] for q in e.get('qs', []))]
     return {'id': '%s/%s' % (sc['id'], mode), 'ref': obs(ref, sigs), 'dup': obs(dup, sigs), 'mcs': mcs, 'echo': echo,
             'qudups': [{'t': t, 'tc': tc} for (t, tc) in sorted({(d['t'], d['tc']) for d in dup['dups'] if d['qu']})],
+            'quprobes': sorted({d['t'] for d in dup['dups'] if d['qu'] and d.get('probe')}),
             'ndups': len(dup['dups']),
             'n_inj': ref.get('events') and sum(1 for e in ref['events'] if e['ev'] == 'recv' and e.get('inj')) or 0,
             'sc': sc['id'], 'mode': mode}
@@ -160,7 +167,8 @@ def run_pairs(ctx: Ctx, jobs: List[Tuple[dict, Any]]) -> None:
             rids = {a[0]: a[1] for m in here for a in m[1] if a[1] > 0}
             # (a second of margin: the cache may have missed a sighting that was byte-identical to the one before it, finding D17)
             recent = {r for r in rids if any(m[0] < d['t'] and d['t'] - m[0] < 250 * a[1] - 1000 for m in p['mcs'] for a in m[1] if a[0] == r and a[1] > 0)}
-            if rids and recent == set(rids):
+            # (the copy of a probe is answered like the probe: at once by multicast whatever was multicast before -- D9 again)
+            if rids and recent == set(rids) and d['t'] not in p.get('quprobes', []):
                 disc = 'extra-multicast-of-recently-multicast-records'
         elif clause == 'C16_SameListenerCalls' and d is not None and d['t'] in p.get('echo', []):
             # same cause as D9: a datagram with a QU question -- here a response that echoes one -- is exempt from the guard
